@@ -1,6 +1,9 @@
 // ===== prelude/core.rs — TRUSTED BASE: error types, lsm-tree value types, panics =====
 // Every `external_body`, `assume_specification` and `uninterp` below is an assumption, not a proof.
 
+// ASSUMPTION: 64-bit target (usize == u64), the only configuration the test suite runs
+global size_of usize == 8;
+
 pub struct IoError { pub kind: IoErrorKind }
 #[derive(Clone, Copy, PartialEq, Eq)]
 pub enum IoErrorKind { UnexpectedEof, Other, NotFound, WouldBlock, AlreadyExists, Interrupted, PermissionDenied }
@@ -127,4 +130,10 @@ pub mod axioms {
     pub broadcast axiom fn array_slice_eq_spec<const N: usize>(a: [u8; N], b: &[u8])
         ensures #[trigger] vstd::std_specs::cmp::PartialEqSpec::eq_spec(&a, &b) == (a@ == b@);
 }
-broadcast use axioms::array_slice_eq_spec;
+// lz4 worst-case expansion (LZ4_compressBound / lz4_flex::block::get_maximum_output_size)
+pub mod lz4_axioms {
+    use vstd::prelude::*;
+    use super::*;
+    pub broadcast axiom fn lz4_bound(v: Seq<u8>)
+        ensures #[trigger] lz4_compress_spec(v).len() <= v.len() + v.len() / 255 + 16;
+}
